@@ -72,6 +72,7 @@ pub fn decode(data: &[u8]) -> (Config, Vec<FuzzOp>) {
         enter_style: 0,
         use_new: c & 32 != 0,
         arrow_params: false,
+        other_set: false,
     };
     let mut ops = Vec::new();
     let body = if data.len() > 3 { &data[3..] } else { &[][..] };
